@@ -219,5 +219,13 @@ CHECKS = {
              "(T = 8 quick / 40 thorough), forward - reverse velocities - forward returns to the initial state within 1e-7 (measured 9e-10).",
         note="Long-horizon statement checked up to T only; for the two non-integrable systems the drift ratio is a statistic, they are judged on order and reversibility. Newton tolerance 1e-12.",
         design="§3 C19"),
+    "C23": dict(
+        level="exploration", engine="grid",
+        technique="exhaustive product enumeration of static problems (rod formulation x load x load steps x options x rigid placement; contact scenes; arc-length paths) solved by the real static solvers; residuals recomputed at every returned row",
+        text="Cantilevers over 60 rod formulations x 7 tip loads (+2 displacement-controlled) x load steps x placements {I, 90 deg, generic}; contact scenes (rod tip, point mass on springs, rigid body on a revolute "
+             "joint over a plane); Riks on the truss, cantilevers and the point-mass scene: equilibrium, g, c, g_S and min(la_N, g_N) at every row, early stops (natural non-convergence, max_load_steps) must say so, "
+             "equilibria of the moved problem equal the moved equilibria (1e-6).",
+        note="Trusted: System's own evaluation methods; tolerance 100*sqrt(n)*(atol + rtol*force scale). Scenes with several equilibria are not frame-compared. A vacuity guard demands 20 outcome classes.",
+        design="§3 C23"),
 }
 NOT_APPLICABLE = {}
